@@ -273,6 +273,170 @@ fn explore_states(run: &mut Run, oracle: Oracle) {
     run.part("state_exploration", json!({"alphabet": alphabet.len(), "states_found": out.states, "state_cap": cap, "closed": out.closed, "detail": crate::explore::outcome_json(&out), "max_depth": out.max_depth, "histories_replayed": out.histories_run, "events_replayed": out.steps, "failing_histories(sampled)": out.failures.len()}));
 }
 
+/// Deep-history families for the event decoder (oracle armed as given, every step checked):
+///  G2a  long typing with a modifier held: M down, 3000 presses cycling over K distinct keys
+///  G2b  wrap probes: K, A^n, B, K with n around 2^8 (thorough: 2^16) over modifier events
+///  G2c  two-phase grammar: S A^i B^j K over a 30-symbol event alphabet
+fn deep_histories(run: &mut Run, oracle: Oracle) {
+    use KeyCode::*;
+    use KeyState::*;
+    let mut fam: Vec<Vec<FlatEv>> = Vec::new();
+    let ordinary: Vec<KeyCode> = ALL_KEYS.iter().copied().filter(|k| !mm::is_modifier_key(*k)).collect();
+    // G2a
+    let holds: Vec<Vec<FlatEv>> = vec![vec![], vec![FlatEv::Key(LShift, Down)], vec![FlatEv::Key(RControl, Down)], vec![FlatEv::Key(LAlt, Down)], vec![FlatEv::Key(RAltGr, Down)], vec![FlatEv::Key(CapsLock, Down), FlatEv::Key(CapsLock, Up)], vec![FlatEv::Key(RShift, Down), FlatEv::Key(LControl, Down)]];
+    for h in &holds {
+        for kk in [1usize, 5, 12, 26, 40] {
+            for taps in [false, true] {
+                let mut v = h.clone();
+                for i in 0..3000usize {
+                    let k = ordinary[(i % kk) * 2 % ordinary.len()];
+                    v.push(FlatEv::Key(k, Down));
+                    if taps { v.push(FlatEv::Key(k, Up)); }
+                }
+                // release what is held and look again
+                for f in h.iter().rev() { if let FlatEv::Key(k, Down) = f { v.push(FlatEv::Key(*k, Up)); } }
+                v.push(FlatEv::Key(A, Down));
+                fam.push(v);
+            }
+        }
+    }
+    let g2a = fam.len();
+    // G2b
+    let modev: Vec<FlatEv> = gen::MOD_KEYS.iter().flat_map(|k| [FlatEv::Key(*k, Down), FlatEv::Key(*k, Up)]).chain([FlatEv::SetMode(HandleControl::Ignore), FlatEv::SetMode(HandleControl::MapLettersToUnicode)]).collect();
+    let ns: Vec<usize> = if run.tier == crate::report::Tier::Thorough { vec![254, 255, 256, 257, 258, 65535, 65536, 65537] } else { vec![254, 255, 256, 257, 258] };
+    for a in &modev {
+        for b in &modev {
+            for &n in &ns {
+                if n > 1000 && !(matches!(a, FlatEv::Key(CapsLock | LShift | NumpadLock, Down))) { continue; }
+                for k in [Key1, A, Numpad7] {
+                    let mut v = vec![FlatEv::Key(k, Down), FlatEv::Key(k, Up)];
+                    // alternate A with its opposite so that every A is a real state change
+                    let opp = match a { FlatEv::Key(kk, Down) => Some(FlatEv::Key(*kk, Up)), FlatEv::Key(kk, Up) => Some(FlatEv::Key(*kk, Down)), FlatEv::SetMode(m) => Some(FlatEv::SetMode(if *m == HandleControl::Ignore { HandleControl::MapLettersToUnicode } else { HandleControl::Ignore })), _ => None };
+                    for i in 0..n {
+                        let lock = matches!(a, FlatEv::Key(CapsLock | NumpadLock, Down));
+                        v.push(if lock || i % 2 == 0 { *a } else { opp.unwrap_or(*a) });
+                    }
+                    v.push(*b);
+                    v.push(FlatEv::Key(k, Down));
+                    fam.push(v);
+                }
+            }
+        }
+    }
+    let g2b = fam.len() - g2a;
+    // G2c
+    let mut alpha: Vec<FlatEv> = modev.clone();
+    alpha.extend([FlatEv::Key(A, Down), FlatEv::Key(A, Up), FlatEv::Key(Numpad7, Down), FlatEv::Key(Key1, Down), FlatEv::Key(TooManyKeys, SingleShot), FlatEv::Key(PowerOnTestOk, SingleShot), FlatEv::Key(F1, Down), FlatEv::Key(Oem7, Down), FlatEv::ChangeLayout(1), FlatEv::Key(PauseBreak, Down)]);
+    let setups: Vec<Vec<FlatEv>> = vec![vec![], vec![FlatEv::Key(LShift, Down)], vec![FlatEv::Key(RControl, Down)], vec![FlatEv::Key(RControl2, Down)]];
+    for s0 in &setups {
+        for a in &alpha {
+            for b in &alpha {
+                for (i, j) in [(300usize, 0usize), (300, 5), (5, 300), (150, 150)] {
+                    let mut v = s0.clone();
+                    v.extend(std::iter::repeat(*a).take(i));
+                    v.extend(std::iter::repeat(*b).take(j));
+                    v.extend([FlatEv::Key(A, Down), FlatEv::Key(NumpadLock, Down), FlatEv::Key(Key1, Down)]);
+                    fam.push(v);
+                }
+            }
+        }
+    }
+    let g2c = fam.len() - g2a - g2b;
+    use rayon::prelude::*;
+    let start = HandleControl::MapLettersToUnicode;
+    let bad: Vec<usize> = fam.par_iter().enumerate().filter_map(|(i, v)| match history_dev(v, start, oracle) { Ok(None) => None, _ => Some(i) }).collect();
+    run.eval(fam.len() as u64);
+    run.nontrivial_enum(fam.len() as u64);
+    for i in bad.iter().take(8) {
+        eval_history(run, &fam[*i], start, oracle);
+    }
+    run.total_violating_cases += bad.len().saturating_sub(8) as u64;
+    run.part("deep_history_families", json!({"long_typing_with_modifier_held(3000 presses)": g2a, "wrap_probes K.A^n.B.K": g2b, "S.A^i.B^j.probe": g2c, "events_total": fam.iter().map(|v| v.len() as u64).sum::<u64>(), "failing": bad.len()}));
+}
+
+/// Pipeline layer: operation sequences (bits, words, bytes, clear, events) through ONE Keyboard
+/// object, every key event the scancode stage decodes is passed to process_keyevent as a driver
+/// would. The event-decoder oracle is applied to the history of events that were actually
+/// decoded (so this stays independent of C01/C02), but inside the same object - what a frame
+/// error counter or a clear() does to the modifiers shows up here.
+fn pipeline_dev(ops: &[gen::Op], start_mode: HandleControl, oracle: Oracle) -> Result<Option<(usize, String, String)>, String> {
+    use gen::Op;
+    guard(|| {
+        let mut kb = Keyboard::new(ScancodeSet2::new(), EncLayout { id: 0 }, start_mode);
+        let mut model = mm::INITIAL_MODS;
+        let mut mode = start_mode;
+        let mut feed = |kb: &mut Keyboard<EncLayout, ScancodeSet2>, model: &mut u16, mode: HandleControl, i: usize, e: KeyEvent| -> Option<(usize, String, String)> {
+            let pre = *model;
+            let out = kb.process_keyevent(e.clone());
+            *model = mm::step(*model, e.code, e.state);
+            match oracle {
+                Oracle::Mods => {
+                    let real = mod_bits(kb.get_modifiers());
+                    if real != *model {
+                        return Some((i, format!("mods:pipeline:state={}:event={}({:?}):want={}:got={}", mods_str(pre), state_name(e.state), e.code, mods_str(*model), mods_str(real)), format!("in modifier state {} the decoded event {} {:?} leaves get_modifiers() = {}; the history of modifier events requires {}", mods_str(pre), state_name(e.state), e.code, mods_str(real), mods_str(*model))));
+                    }
+                }
+                Oracle::Output => {
+                    let want: Option<DecodedKey> = match mm::expect_output(pre, e.code, e.state) {
+                        Expect::Nothing => None,
+                        Expect::Raw(r) => Some(DecodedKey::RawKey(r)),
+                        Expect::ViaLayout => Some(DecodedKey::Unicode(encode_args(0, e.code, *model, mode))),
+                    };
+                    if out != want {
+                        return Some((i, format!("out:pipeline:state={}:mode={}:event={}({:?}):want={}:got={}", mods_str(pre), mode_name(mode), state_name(e.state), e.code, describe_out(&want).replace(' ', ""), describe_out(&out).replace(' ', "")), format!("in modifier state {} (mode {}) the decoded event {} {:?} returns {}; required: {}", mods_str(pre), mode_name(mode), state_name(e.state), e.code, describe_out(&out), describe_out(&want))));
+                    }
+                }
+            }
+            None
+        };
+        for (i, op) in ops.iter().enumerate() {
+            let decoded = match op {
+                Op::Bit(b) => kb.add_bit(*b).ok().flatten(),
+                Op::Word(w) => kb.add_word(*w).ok().flatten(),
+                Op::Byte(b) => kb.add_byte(*b).ok().flatten(),
+                Op::Clear => { kb.clear(); None }
+                Op::SetCtrl(m) => { kb.set_ctrl_handling(*m); mode = *m; None }
+                Op::Event(k, s) => Some(KeyEvent::new(*k, *s)),
+            };
+            if let Some(e) = decoded {
+                if let Some(d) = feed(&mut kb, &mut model, mode, i, e) {
+                    return Some(d);
+                }
+            }
+            if oracle == Oracle::Mods && mod_bits(kb.get_modifiers()) != model {
+                return Some((i, format!("mods:pipeline:op-without-event-changed-modifiers:want={}:got={}", mods_str(model), mods_str(mod_bits(kb.get_modifiers()))), format!("an operation that decodes no key event changed get_modifiers() from {} to {}", mods_str(model), mods_str(mod_bits(kb.get_modifiers())))));
+            }
+        }
+        None
+    })
+}
+
+fn pipeline_layer(run: &mut Run, oracle: Oracle) {
+    use rayon::prelude::*;
+    let (fam, g4a) = crate::checks::kbd::deep_ops::<ScancodeSet2>();
+    let mode = HandleControl::MapLettersToUnicode;
+    let bad: Vec<usize> = fam.par_iter().enumerate().filter_map(|(i, v)| match pipeline_dev(v, mode, oracle) { Ok(None) => None, _ => Some(i) }).collect();
+    run.eval(fam.len() as u64);
+    run.nontrivial_enum(fam.len() as u64);
+    for i in bad.iter().take(6) {
+        let ops = &fam[*i];
+        match pipeline_dev(ops, mode, oracle) {
+            Ok(Some((k, sig, what))) => {
+                let shown = &ops[..=k];
+                run.violation(Violation {
+                    sig,
+                    what: format!("Keyboard pipeline (frames/bytes in, every decoded event processed): {} - after {} operations, the last ones being [{}]", what, k + 1, crate::checks::kbd::ops_text(&shown[shown.len().saturating_sub(40)..])),
+                    case: json!({"kind":"kbd_pipeline","start_mode":mode_name(mode),"ops":shown.iter().map(gen::op_json).collect::<Vec<_>>()}),
+                });
+            }
+            Err(p) => run.violation(Violation { sig: format!("pipeline:{}", panic_sig(&p)), what: format!("panic in the Keyboard pipeline: {}", p), case: json!({"kind":"kbd_pipeline","start_mode":mode_name(mode),"ops":ops.iter().map(gen::op_json).collect::<Vec<_>>()}) }),
+            Ok(None) => {}
+        }
+    }
+    run.total_violating_cases += bad.len().saturating_sub(6) as u64;
+    run.part("keyboard_pipeline_layer", json!({"S.A^i.B^j.T sequences": g4a, "noisy_line_workloads": fam.len() - g4a, "failing": bad.len()}));
+}
+
 fn witness(bits: u16) -> Vec<FlatEv> {
     mm::witness_history(bits).into_iter().map(|(k, s)| FlatEv::Key(k, s)).collect()
 }
@@ -411,11 +575,13 @@ fn random_histories(run: &mut Run, oracle: Oracle, cases: u32, salt: u64) {
 }
 
 pub fn c04(run: &mut Run) {
-    run.rule = "Exhaustive: for each of the 512 modifier records x 2 Ctrl modes a fresh Keyboard is driven there by a canonical witness history (arrival confirmed through get_modifiers), then each of the 124 keys x {Down, Up, SingleShot} is applied and get_modifiers() is compared with a nine-flag reference model written from the property statement; on ordinary presses an argument-encoding layout reveals the modifier record handed to the layout (Keyboard and bare EventDecoder), which must be the same record. State exploration: breadth-first search over every key event and configuration setter, states named by the Debug rendering the crate derives for Keyboard/EventDecoder (so hidden fields steer the search too), every replayed history checked against the model. All ordered pairs of events from the initial state (372 x 372 x 2 modes) and pumping (every event repeated 700 times, typical patterns repeated for >= 70,000 events) look for state outside the record. Random: event histories (<= 200 ops, typematic repeats of ordinary and modifier keys, 48% on the nine modifier/lock keys, Pause idiom, mode and layout changes) checked after every event, shrunk by proptest. Non-trivial transition = event on a modifier/lock key, or source state with >= 2 flags set besides NumLock (exhaustive: distinct by construction); non-trivial history = contains a Pause idiom or >= 3 distinct modifier keys (distinct by fingerprint).".into();
+    run.rule = "Exhaustive: for each of the 512 modifier records x 2 Ctrl modes a fresh Keyboard is driven there by a canonical witness history (arrival confirmed through get_modifiers), then each of the 124 keys x {Down, Up, SingleShot} is applied and get_modifiers() is compared with a nine-flag reference model written from the property statement; on ordinary presses an argument-encoding layout reveals the modifier record handed to the layout (Keyboard and bare EventDecoder), which must be the same record. State exploration: breadth-first search over every key event and configuration setter, states named by the Debug rendering the crate derives for Keyboard/EventDecoder (so hidden fields steer the search too), every replayed history checked against the model. Keyboard pipeline layer: the Keyboard-level deep families (two-phase repetition grammar over bits/words/bytes/clear/events, noisy-line workloads of 6000 frames) through one Keyboard object with every decoded event processed, the oracle applied to the events actually decoded. Deep-history families: long typing (3000 presses over 1-40 distinct keys) with a modifier held; wrap probes K A^n B K with n = 254..258 over all modifier events and setters; two-phase grammar S A^i B^j probe over a 30-symbol alphabet. All ordered pairs of events from the initial state (372 x 372 x 2 modes) and pumping (every event repeated 700 times, typical patterns repeated for >= 70,000 events) look for state outside the record. Random: event histories (<= 200 ops, typematic repeats of ordinary and modifier keys, 48% on the nine modifier/lock keys, Pause idiom, mode and layout changes) checked after every event, shrunk by proptest. Non-trivial transition = event on a modifier/lock key, or source state with >= 2 flags set besides NumLock (exhaustive: distinct by construction); non-trivial history = contains a Pause idiom or >= 3 distinct modifier keys (distinct by fingerprint).".into();
     run.assumptions = vec!["get_modifiers() exposes the complete modifier record, and all 512 values are reached, so the enumerated relation is the complete transition relation of the modifier state; independence from state outside the record is attacked by the random layer".into()];
     exhaustive_transitions(run, Oracle::Mods);
     pairs_and_pumping(run, Oracle::Mods);
     explore_states(run, Oracle::Mods);
+    deep_histories(run, Oracle::Mods);
+    pipeline_layer(run, Oracle::Mods);
     run.exhaustive = true;
     let n = run.tier.pick(5_000u32, 500_000u32);
     random_histories(run, Oracle::Mods, n, 0xC04);
@@ -427,6 +593,8 @@ pub fn c14(run: &mut Run) {
     exhaustive_transitions(run, Oracle::Output);
     pairs_and_pumping(run, Oracle::Output);
     explore_states(run, Oracle::Output);
+    deep_histories(run, Oracle::Output);
+    pipeline_layer(run, Oracle::Output);
 
     // (b) orderings of configuration changes between two presses
     let changes = [
@@ -482,6 +650,18 @@ pub fn c14(run: &mut Run) {
 }
 
 pub fn replay(run: &mut Run, case: &Value) -> bool {
+    if case["kind"].as_str() == Some("kbd_pipeline") {
+        let ops: Vec<gen::Op> = case["ops"].as_array().map(|a| a.iter().filter_map(gen::op_from_json).collect()).unwrap_or_default();
+        let start = mode_by_name(case["start_mode"].as_str().unwrap_or("Map")).unwrap_or(HandleControl::MapLettersToUnicode);
+        let oracle = if run.id == "C04" { Oracle::Mods } else { Oracle::Output };
+        run.eval(1);
+        match pipeline_dev(&ops, start, oracle) {
+            Ok(Some((_, sig, what))) => run.violation(Violation { sig, what, case: case.clone() }),
+            Err(p) => run.violation(Violation { sig: format!("pipeline:{}", panic_sig(&p)), what: p, case: case.clone() }),
+            Ok(None) => {}
+        }
+        return true;
+    }
     if case["kind"].as_str() != Some("ev_history") {
         return false;
     }
